@@ -218,6 +218,8 @@ __attribute__((noinline)) void Sim::scribble() {
     stats.scribbles += 1;
 }
 
+void Sim::scribbleStack() { if (allowScribble && policy.scribble) scribble(); }
+
 int Sim::chooseTask(const std::vector<int>& r) {
     switch (policy.pick) {
         case PICK_FIFO: return 0;
